@@ -76,6 +76,9 @@ func (fc *fnCtx) chanRecv(st *state, ch Val, cond string, pos token.Pos, ins ssa
 			fc.assume(st, ok.T) // no code in /repo closes this channel (structural obligation neverclosed.*)
 		}
 	}
+	if fc.e.db.neverClosedType[typeName(et)] {
+		fc.assume(st, ok.T) // no code in /repo closes a channel of this element type (structural obligation neverclosed.type:*)
+	}
 	if inv := fc.chanInv(st, ch, v); inv != "" {
 		fc.assume(st, fmt.Sprintf("(=> (and %s %s) %s)", cond, ok.T, inv))
 		fc.trusted["chaninv "+fc.prov[ch.T]+" (proved at the sends in /repo)"] = true
@@ -96,27 +99,33 @@ func (fc *fnCtx) chanRecv(st *state, ch Val, cond string, pos token.Pos, ins ssa
 // chanInv instantiates the channel invariant registered for the struct field
 // the channel reference was loaded from.
 func (fc *fnCtx) chanInv(st *state, ch, v Val) string {
-	p, ok := fc.prov[ch.T]
-	if !ok {
-		return ""
-	}
-	key := strings.TrimPrefix(p, "H!")
-	key = strings.Replace(key, "!", ".", 1)
-	blk, ok := fc.e.db.chaninv[key]
-	if !ok {
-		return ""
-	}
-	blk.used = true
-	var parts []string
-	for _, c := range blk.clauses {
-		if c.kind != "ensures" && c.kind != "requires" {
-			continue
+	var blks []*block
+	if p, ok := fc.prov[ch.T]; ok {
+		key := strings.TrimPrefix(p, "H!")
+		key = strings.Replace(key, "!", ".", 1)
+		if blk, ok := fc.e.db.chaninv[key]; ok {
+			blks = append(blks, blk)
 		}
-		t := fc.evalFormula(c.f, &evalCtx{cur: st, old: st, bind: map[string]Val{"$val": v, "$ch": ch}})
-		parts = append(parts, t)
 	}
-	for _, th := range blk.theories {
-		fc.theories[th] = true
+	// invariant of every channel with this element type (asserted at every send in /repo)
+	if ct, ok := ch.Ty.Underlying().(*types.Chan); ok {
+		if blk, ok := fc.e.db.chaninv["type:"+typeName(ct.Elem())]; ok {
+			blks = append(blks, blk)
+		}
+	}
+	var parts []string
+	for _, blk := range blks {
+		blk.used = true
+		for _, c := range blk.clauses {
+			if c.kind != "ensures" && c.kind != "requires" {
+				continue
+			}
+			t := fc.evalFormula(c.f, &evalCtx{cur: st, old: st, bind: map[string]Val{"$val": v, "$ch": ch}})
+			parts = append(parts, t)
+		}
+		for _, th := range blk.theories {
+			fc.theories[th] = true
+		}
 	}
 	if len(parts) == 0 {
 		return ""
